@@ -53,6 +53,8 @@ func buildCluster(rng *RNG) *simCluster {
 	c.addRegion([]byte("ns"), []byte("t"), []byte("m"), nil, pick())
 	// same namespace, qualifier "t" is a proper suffix of "xt"
 	c.addRegion([]byte("ns"), []byte("xt"), nil, nil, pick())
+	// another namespace of the same length with the same qualifier
+	c.addRegion([]byte("nt"), []byte("t"), nil, nil, pick())
 	return c
 }
 
@@ -123,7 +125,7 @@ func seqScenario(rng *RNG, model string) string {
 	defer sc.cl.Close()
 	var steps []string
 	nSteps := 6 + rng.Intn(14)
-	tables := []string{"t", "t", "t", "t2", "ns:t", "ns:xt"}
+	tables := []string{"t", "t", "t", "t2", "ns:t", "ns:xt", "nt:t"}
 	mark := func() int { c.mu.Lock(); defer c.mu.Unlock(); return len(c.serves) }
 	for i := 0; i < nSteps; i++ {
 		if rng.Intn(3) == 0 {
@@ -2067,6 +2069,19 @@ func init() {
 			}
 			for i := shard; i < 8; i += nsh {
 				emit(riMarshalScenario(NewRNG(seed, fmt.Sprintf("rim-%d", i))))
+			}
+			if raceChild {
+				// scans that renew their lease (a goroutine of the client running next to the caller's
+				// Next / Close): only their memory accesses matter here, the rows are judged by C06/C14
+				rr := NewRNG(seed, fmt.Sprintf("c09-renew-%d", shard))
+				for i := shard; i < 48; i += nsh {
+					c := randCase(rr, 8, 5)
+					cfg := runCfg{hb: rr.Intn(3), maxFrags: 1 + rr.Intn(3), idBase: uint64(rr.Intn(1000)), renew: true}
+					for _, plan := range []endPlan{{kind: "full"}, {kind: "close", n: 2}, {kind: "cancel", n: 2}} {
+						runScan(c, &chooser{rng: NewRNG(rr.Next(), "script")}, plan, cfg)
+					}
+					emit("c09 script renewing-scans ok unavailable=0")
+				}
 			}
 		})
 		// the same concurrent scenarios once more under Go's race detector (a second harness binary
